@@ -29,8 +29,8 @@ type C17Case struct {
 	Pad     bool           `json:"pad,omitempty"`     // extra white space inside brackets
 	// Poison, when set, is a query the rewriters reject; it is executed (and its outcome ignored) under
 	// all three options right before the variant: a rejected query must leave nothing behind
-	Poison  string         `json:"poison,omitempty"`
-	BSQuote bool           `json:"bsquote,omitempty"` // variant spells a quote inside a literal as \' (canonical: '')
+	Poison  string `json:"poison,omitempty"`
+	BSQuote bool   `json:"bsquote,omitempty"` // variant spells a quote inside a literal as \' (canonical: '')
 }
 
 var c17LitPieces = []string{"\"", "'", "`", "\\", "[", "]", "é", "日本", "a", " ", "[1,2]", "\"x\"", "\\\"", "]]", "[[", "''", "b", "😀", "\\\\", "ARRAY(", ")", ","}
